@@ -40,6 +40,11 @@ PROPS = {
         "level": "exploration",
         "stages": [native("main", timeout=300, timeout_thorough=1200)],
     },
+    "C05": {
+        "level": "exploration",
+        "stages": [native("main", timeout=300, timeout_thorough=1500),
+                   native("main-dev", engine="dev", rv_stage="main", tiers=["thorough"], timeout_thorough=1500)],
+    },
     "C07": {
         "level": "exploration",
         "stages": both("dispatch") + [miri("miri-dispatch", scale=0.002)],
@@ -73,6 +78,18 @@ PROPS = {
     "C14": {
         "level": "exploration",
         "stages": both("model") + [miri("miri-model", scale=0.0015)],
+    },
+    "C15": {
+        "level": "fault_enumeration",
+        "stages": [native("main", timeout=300, timeout_thorough=1500)],
+    },
+    "C16": {
+        "level": "exploration",
+        "stages": [native("main", timeout=300, timeout_thorough=1500)],
+    },
+    "C17": {
+        "level": "exploration",
+        "stages": [native("main", timeout=300, timeout_thorough=1500)],
     },
     "C18": {
         "level": "exploration",
